@@ -46,7 +46,7 @@ ASSUMPTIONS = [
     'The node assigns real ids (>= 1000) on alloc, as a real node does; interpreter-local placeholder ids are mapped by position.',
     'Independent key hashing covers the key types generated here (int, string, bytes, pair int string, pair int int int string), using the legacy (nested-pair) packing for combs, as the protocol does for big_map keys.',
 ]
-EXPECTED_PROBES = ['transaction_through_session_RUN', 'two_versions_of_one_fresh_big_map_stored', 'big_map_inside_option_storage', 'static_run_code_transaction', 'long_lived_session_reused', 'session_switched_network', 'parameter_big_map_session', 'empty_list_value_on_chain_read', 'sibling_key_types_same_text', 'read_chain_only_key', 'update_chain_only_key', 'remove_chain_only_key', 'reinsert_after_remove', 'read_after_local_remove_of_chain_key',
+EXPECTED_PROBES = ['big_map_inside_map_storage', 'transaction_through_session_RUN', 'two_versions_of_one_fresh_big_map_stored', 'big_map_inside_option_storage', 'static_run_code_transaction', 'long_lived_session_reused', 'session_switched_network', 'parameter_big_map_session', 'empty_list_value_on_chain_read', 'sibling_key_types_same_text', 'read_chain_only_key', 'update_chain_only_key', 'remove_chain_only_key', 'reinsert_after_remove', 'read_after_local_remove_of_chain_key',
                    'commit_with_removals', 'abandoned_session', 'failed_cell_midway', 'transient_on_read', 'second_txn_reads_first_txn_writes', 'dup_divergent']
 
 URI = 'http://node0.sim:8732'
@@ -258,7 +258,7 @@ def gen(seed, tier):
             # the whole transaction is one contract executed through Interpreter.run_code (the non-REPL entry point)
             st['static'] = rng.choice(['readable', 'optimized', 'legacy_optimized', 'session_run', 'session_run'])
         elif src != 'param' and rng.random() < 0.15:
-            st['wrap'] = 'option'  # storage (option (big_map ..)): the lazily initialised big_map idiom
+            st['wrap'] = rng.choice(['option', 'option', 'map'])  # storage (option (big_map ..)): the lazily initialised idiom; or a map of big_maps
         elif src in ('literal', 'empty') and rng.random() < 0.3:
             # at the end the fresh big_map is DUPed, the two copies are updated differently and both are stored (two storage slots)
             vn_a, vn_b = newval('s'), newval('s')
@@ -537,6 +537,12 @@ def execute(scn, want_log=False):
                     r1 = run(f'BEGIN Unit (Some {lit})')
                     r2 = run(f'CDR ; IF_NONE {{ EMPTY_BIG_MAP {K} {V} }} {{}}')
                     bump('big_map_inside_option_storage')
+                elif st.get('wrap') == 'map':
+                    sess['wrap'] = 'map'
+                    r0 = run(f'parameter unit ; storage (map string (big_map {K} {V})) ; code {{ CDR ; NIL operation ; PAIR }}')
+                    r1 = run(f'BEGIN Unit {{ Elt "a" {lit} }}')
+                    r2 = run(f'CDR ; PUSH string "a" ; GET ; IF_NONE {{ EMPTY_BIG_MAP {K} {V} }} {{}}')
+                    bump('big_map_inside_map_storage')
                 elif st.get('dup_slots'):
                     sess['dup_slots'] = st['dup_slots']
                     r0 = run(f'parameter unit ; storage (pair (big_map {K} {V}) (big_map {K} {V})) ; code {{ CDR ; NIL operation ; PAIR }}')
@@ -652,7 +658,9 @@ def execute(scn, want_log=False):
                 sess = None
                 continue
             elif op == 'commit':
-                res = run(('SOME ; ' if sess.get('wrap') == 'option' else '') + 'NIL operation ; PAIR ; COMMIT')
+                wrap_prefix = {'option': 'SOME ; ',
+                               'map': f'SOME ; EMPTY_MAP string (big_map {KTYPE_M[sess["ktype"]]} {VTYPE_M[vtype]}) ; SWAP ; PUSH string "a" ; UPDATE ; '}.get(sess.get('wrap'), '')
+                res = run(wrap_prefix + 'NIL operation ; PAIR ; COMMIT')
                 rr = rs.render_result(res)
                 if res.error is not None:
                     violate('commit', 'commit-raises', error=rr['error'])
